@@ -269,6 +269,11 @@ func c14Cases(quick bool) []c14Case {
 	for _, t := range []int32{6, 7, 100} {
 		add(fmt.Sprintf("unknown-type-%d", t), fsData(t, nil), false, "error", all)
 	}
+	// out-of-range types that are congruent to a known type modulo 2^32 (a
+	// decoder that narrows the varint to 32 bits would accept them)
+	for _, tv := range []uint64{1 << 32, 1<<32 + 1, 1<<32 + 2, 1<<32 + 5, 1 << 63, 1<<63 + 2, 1<<40 + 1} {
+		add(fmt.Sprintf("unknown-type-%d", tv), protowire.AppendVarint([]byte{0x08}, tv), false, "error", []int{0, 1})
+	}
 	add("unknown-type-minus1", []byte{0x08, 0xff, 0xff, 0xff, 0xff, 0xff, 0xff, 0xff, 0xff, 0xff, 0x01}, false, "error", all)
 	add("shard-no-fanout", shard(func(d *pb.Data) { d.Fanout = nil }), false, "error", []int{0})
 	add("shard-fanout-0", shard(func(d *pb.Data) { d.Fanout = u64p(0) }), false, "error", []int{0})
@@ -294,7 +299,7 @@ func c14Cases(quick bool) []c14Case {
 	base := len(out)
 	for i := 0; i < base; i++ {
 		c := out[i]
-		if c.NoData || len(c.Data) == 0 || strings.HasPrefix(c.Label, "garbage") || strings.HasPrefix(c.Label, "rejected-inner") || strings.HasPrefix(c.Label, "unknown-type-minus1") {
+		if c.NoData || len(c.Data) == 0 || strings.HasPrefix(c.Label, "garbage") || strings.HasPrefix(c.Label, "rejected-inner") || strings.HasPrefix(c.Label, "unknown-type-minus1") || strings.HasPrefix(c.Label, "unknown-type-4") || strings.HasPrefix(c.Label, "unknown-type-9") || strings.HasPrefix(c.Label, "unknown-type-1") {
 			continue
 		}
 		if re := typeFieldLast(c.Data); re != nil {
